@@ -127,8 +127,9 @@ def run_scripts(scripts, name):
     if p.returncode != 0:
         sys.stderr.write(p.stdout[-3000:])
         raise vlib.ToolError("fs_driver failed")
-    acc, rej, stats, total = vlib.validate_traces("FsTrace.tla", "FsTrace.cfg", tp, "val_" + name, shards=12)
-    rej, explained = vlib.second_opinion("FsTraceObs.tla", "FsTraceObs.cfg", rej, "obs_" + name)
+    left = []
+    acc, rej, stats, total = vlib.validate_traces("FsTrace.tla", "FsTrace.cfg", tp, "val_" + name, shards=12, leftover=left)
+    rej, explained = vlib.second_opinion("FsTraceObs.tla", "FsTraceObs.cfg", rej, "obs_" + name, leftover=left)
     acc += len(explained)
     return tp, acc, rej, stats, total
 
@@ -164,9 +165,10 @@ def run(prop, tier, replay=None):
     if p.returncode != 0:
         sys.stderr.write(p.stdout[-3000:])
         raise vlib.ToolError("fs_driver failed")
-    acc, rej, stats, total = vlib.validate_traces("FsTrace.tla", "FsTrace.cfg", tp, "val_C13", shards=12)
+    left = []
+    acc, rej, stats, total = vlib.validate_traces("FsTrace.tla", "FsTrace.cfg", tp, "val_C13", shards=12, leftover=left)
     # rejected step by step: is it at least a behaviour of FsWorker as far as can be seen from outside?
-    rej, explained = vlib.second_opinion("FsTraceObs.tla", "FsTraceObs.cfg", rej, "obs_C13")
+    rej, explained = vlib.second_opinion("FsTraceObs.tla", "FsTraceObs.cfg", rej, "obs_C13", leftover=left)
     acc += len(explained)
     for r in rej:
         sid = r["script"] or ""
